@@ -477,3 +477,23 @@ fn parse_error_new__multibyte_line_concrete() {
     kani::cover!(true, "completed");
     std::mem::forget(err);
 }
+
+#[kani::proof]
+#[kani::unwind(8)]
+fn probe_pe_1() {
+    check_one("a\n", 0, 1);
+}
+#[kani::proof]
+#[kani::unwind(8)]
+fn probe_pe_2() {
+    check_one("a\n", 0, 1);
+    check_one("\na", 1, 2);
+}
+#[kani::proof]
+#[kani::unwind(8)]
+fn probe_pe_4() {
+    check_one("a\n", 0, 1);
+    check_one("\na", 1, 2);
+    check_one("\n\n", 1, 2);
+    check_one("aa", 0, 2);
+}
